@@ -488,13 +488,8 @@ func genNames(r *rand.Rand, mode string) caseT {
 // genProg wraps a main package with 1–4 imported packages forming a DAG; every imported package is
 // a small "direct" package plus `var X = lg("<path>.X", own variables…, X of its imports…)`.
 func genProg(r *rand.Rand, main caseT) caseT {
-	for k := range main.Vars {
-		if main.operandLater(k) {
-			// gta panics at this declaration (F15-9); which imports have been processed by then
-			// depends on the file order, which the model does not describe
-			return main
-		}
-	}
+	// (before the repair of F15-9 gta panicked at a comma-ok declaration standing before its operand, and
+	// the generator kept that shape out of programs with several packages)
 	// (before the repair of F15-7 a multi-value declaration whose callee is declared later stopped
 	// gta, and the generator kept that shape out of programs with several packages)
 	names := []string{"liba", "libb", "libc", "libd", "libe"}
